@@ -60,6 +60,7 @@ var (
 	bitems   map[*value]*bitem
 	biters   map[*value]*biter
 	bbatches map[*value]*bbatch
+	bdbDirs  map[string]*bdb
 )
 
 func resetBadger() {
@@ -68,6 +69,7 @@ func resetBadger() {
 	bitems = map[*value]*bitem{}
 	biters = map[*value]*biter{}
 	bbatches = map[*value]*bbatch{}
+	bdbDirs = map[string]*bdb{}
 }
 
 const badgerPkg = "github.com/dgraph-io/badger/v2"
@@ -186,7 +188,29 @@ func init() {
 	p := badgerPkg + "."
 	ext(p+"Open", func(fr *frame, a []value) value {
 		cell := badgerNew(fr, "DB")
-		bdbs[cell] = &bdb{}
+		// databases opened with the same non-empty Dir share their contents
+		// (reopen after a restart); in-memory / empty-Dir databases are fresh
+		dir := ""
+		if opt, ok := a[0].(structure); ok {
+			ts := fr.fn.Signature.Params().At(0).Type().Underlying().(*types.Struct)
+			for k := 0; k < ts.NumFields(); k++ {
+				if ts.Field(k).Name() == "Dir" {
+					dir, _ = opt[k].(string)
+				}
+			}
+		}
+		if dir != "" {
+			if db, ok := bdbDirs[dir]; ok {
+				db.closed = false
+				bdbs[cell] = db
+				return tuple{cell, iface{}}
+			}
+		}
+		db := &bdb{}
+		if dir != "" {
+			bdbDirs[dir] = db
+		}
+		bdbs[cell] = db
 		return tuple{cell, iface{}}
 	})
 	ext("(*"+p+"DB).Close", func(fr *frame, a []value) value { dbOf(a[0]).closed = true; return iface{} })
@@ -368,7 +392,17 @@ func init() {
 	for _, n := range []string{"WithInMemory", "WithLogger", "WithLoggingLevel", "WithSyncWrites", "WithTruncate", "WithValueLogFileSize"} {
 		ext("("+p+"Options)."+n, func(fr *frame, a []value) value { return a[0] })
 	}
-	ext(p+"DefaultOptions", func(fr *frame, a []value) value { return zeroResult(fr.fn) })
-	ext(p+"LSMOnlyOptions", func(fr *frame, a []value) value { return zeroResult(fr.fn) })
+	optsWithDir := func(fr *frame, a []value) value {
+		st := zeroResult(fr.fn).(structure)
+		ts := fr.fn.Signature.Results().At(0).Type().Underlying().(*types.Struct)
+		for k := 0; k < ts.NumFields(); k++ {
+			if ts.Field(k).Name() == "Dir" || ts.Field(k).Name() == "ValueDir" {
+				st[k] = a[0]
+			}
+		}
+		return st
+	}
+	ext(p+"DefaultOptions", optsWithDir)
+	ext(p+"LSMOnlyOptions", optsWithDir)
 	_ = fmt.Sprint
 }
